@@ -361,7 +361,15 @@ L_PRE_SHUTDOWN, L_RESUME, L_NST_START = 10, 11, 12
 L_SERVE_P1, L_SERVE_P2, L_CLOSE_P2, L_REL_PAUSE = 13, 14, 15, 16
 L_FACTORY_FAIL, L_API_INSIDE, L_REL_QUIT = 17, 18, 19
 L_CLOSE_CANCELLED, L_SHUTDOWN_CANCELLED = 20, 21     # async worlds: the caller is cancelled at the call's first checkpoint
-CALLS = (L_SERVE, L_SHUTDOWN, L_CLOSE, L_PRE_SHUTDOWN, L_SERVE_P1, L_SERVE_P2, L_CLOSE_P2, L_CLOSE_CANCELLED, L_SHUTDOWN_CANCELLED)
+L_ACTIVATE = 22                                      # async worlds: a bare server_activate() from its own task
+# async worlds, 100 + 10 a + b (a, b in 0 serve / 1 shutdown / 2 close): two tasks issue call a and call b back to back, so
+# that b starts while a sits at its first checkpoint; two status slots, one observation after both
+L_PAIRS = tuple(100 + 10 * a + b for a in (0, 1, 2) for b in (0, 1, 2))
+# async worlds, 30 + k: a lone server_activate() from its own task and, k loop iterations into it, server_close() (the REAL
+# listeners factory runs unless the factory gate is set); two status slots (activation: "over" whatever its outcome; close)
+L_RACES = tuple(range(30, 50))
+CALLS = (L_SERVE, L_SHUTDOWN, L_CLOSE, L_PRE_SHUTDOWN, L_SERVE_P1, L_SERVE_P2, L_CLOSE_P2, L_CLOSE_CANCELLED, L_SHUTDOWN_CANCELLED,
+         L_ACTIVATE) + L_PAIRS + L_RACES
 
 
 def _port_bound(kind, addr):
@@ -411,7 +419,22 @@ def _status(fut_exc, done):
         return 6
     if type(exc) is OSError:
         return 7            # the error of the (scripted) listeners factory
+    if isinstance(exc, ScriptedTeardownError) or (isinstance(exc, BaseExceptionGroup) and all(
+            isinstance(e, ScriptedTeardownError) for e in _leaves(exc))):
+        return 10           # the scripted failure of the service's tear-down (standalone worlds with init gate value 2)
     return 9
+
+
+class ScriptedTeardownError(Exception):
+    """raised by a callback that service_init() pushed on the server's exit stack (a tear-down that FAILS)"""
+
+
+def _leaves(e):
+    if isinstance(e, BaseExceptionGroup):
+        for x in e.exceptions:
+            yield from _leaves(x)
+    else:
+        yield e
 
 
 # ----------------------------------------------------------------------------------------------------------------
@@ -531,6 +554,17 @@ class _AsyncWorld:
 
         calls, clients, obs = [], [], []
         cancelled_calls = set()
+        over_either_way = set()
+
+        class ReturnedWhileListening(Exception):
+            pass
+
+        async def closing():
+            # server_close(), observed at the instant it returns: the listeners must be closed THEN (status 8 otherwise),
+            # not only once everything has come to rest
+            await srv.server_close()
+            if srv.is_listening():
+                raise ReturnedWhileListening
         addr = None
         try:
             for lab in labels:
@@ -539,7 +573,19 @@ class _AsyncWorld:
                 elif lab == L_SHUTDOWN:
                     calls.append(asyncio.ensure_future(srv.shutdown()))
                 elif lab == L_CLOSE:
-                    calls.append(asyncio.ensure_future(srv.server_close()))
+                    calls.append(asyncio.ensure_future(closing()))
+                elif lab == L_ACTIVATE:
+                    calls.append(asyncio.ensure_future(srv.server_activate()))
+                elif lab in L_RACES:
+                    a = asyncio.ensure_future(srv.server_activate())
+                    for _ in range(lab - 30):
+                        await asyncio.sleep(0)
+                    over_either_way.add(len(calls))
+                    calls.append(a)
+                    calls.append(asyncio.ensure_future(closing()))
+                elif lab in L_PAIRS:
+                    for which in ((lab - 100) // 10, (lab - 100) % 10):
+                        calls.append(asyncio.ensure_future((srv.serve_forever, srv.shutdown, closing)[which]()))
                 elif lab in (L_CLOSE_CANCELLED, L_SHUTDOWN_CANCELLED):
                     # the call runs up to its first checkpoint, then its caller is cancelled there (task.cancel())
                     t = asyncio.ensure_future(srv.server_close() if lab == L_CLOSE_CANCELLED else srv.shutdown())
@@ -595,8 +641,11 @@ class _AsyncWorld:
                         st.append(0)
                     elif c.cancelled():
                         st.append(1 if ci_ in cancelled_calls else 6)     # cancelled by the harness: the call is over
+                    elif isinstance(c.exception(), ReturnedWhileListening):
+                        st.append(8)
                     else:
-                        st.append(_status(c.exception(), True))
+                        code = _status(c.exception(), True)
+                        st.append(1 if ci_ in over_either_way and code == 3 else code)
                 if srv.is_listening():
                     a = srv.get_addresses()
                     if a:
@@ -763,7 +812,11 @@ def _run_standalone(inp):
     from easynetwork.servers.handlers import AsyncDatagramRequestHandler, AsyncStreamRequestHandler
     kind, _gates, labels = inp[0], inp[1], inp[2]
     never = threading.Event()
-    gate_init, gate_teardown = bool(_gates[1]), bool(_gates[2])
+    gate_init, gate_teardown = _gates[1] == 1, bool(_gates[2])
+    failing_teardown = _gates[1] == 2       # world dimension: the service's tear-down fails (a callback of service_init raises)
+
+    def raise_at_teardown():
+        raise ScriptedTeardownError("scripted: the service's tear-down fails")
     init_waiters = []          # (loop, asyncio.Event) of a service_init() held back in the serving thread's loop
     init_lock = threading.Lock()
 
@@ -790,6 +843,8 @@ def _run_standalone(inp):
 
     class SH(AsyncStreamRequestHandler):
         async def service_init(self, exit_stack, server):
+            if failing_teardown:
+                exit_stack.callback(raise_at_teardown)
             await held_service_init()
 
         async def handle(self, client):
@@ -800,6 +855,8 @@ def _run_standalone(inp):
 
     class DH(AsyncDatagramRequestHandler):
         async def service_init(self, exit_stack, server):
+            if failing_teardown:
+                exit_stack.callback(raise_at_teardown)
             await held_service_init()
 
         async def handle(self, client):
@@ -1140,6 +1197,44 @@ def _cases(tier, rng, escalate):
             if kind == 0:
                 yield _mk(kind, (0, 0, 1), [L_SERVE, L_CONNECT, cancelled, L_REL_CLIENT], ["cancelled-call"])
                 yield _mk(kind, (0, 0, 1), [L_SERVE, L_CONNECT, cancelled, L_SERVE, L_REL_CLIENT], ["cancelled-call"])
+    # overlapping lifecycle calls from several TASKS of the asynchronous server: bare server_activate() calls (held inside
+    # the gated listeners factory or queued on the activation lock) with serve / close / shutdown arriving meanwhile, and
+    # pairs of calls issued back to back (the second starts while the first sits at its first checkpoint)
+    for kind in (0, 1):
+        for gf in (0, 1):
+            rel = [L_REL_FACTORY] if gf else []
+            for mid in ([], [L_SERVE], [L_CLOSE], [L_SHUTDOWN], [L_ACTIVATE], [L_SERVE, L_CLOSE], [L_CLOSE, L_SERVE], [L_SERVE, L_SHUTDOWN],
+                        [L_ACTIVATE, L_CLOSE], [L_SERVE, L_ACTIVATE, L_CLOSE], [L_CLOSE_CANCELLED], [L_SERVE, L_CLOSE_CANCELLED]):
+                for post in ([], [L_SERVE], [L_CLOSE], [L_SERVE, L_SHUTDOWN], [L_ACTIVATE]):
+                    yield _mk(kind, (gf, 0, 0), [L_ACTIVATE] + mid + rel + post, ["overlap"])
+            for pre in ([L_SERVE], [L_CLOSE], [L_SERVE, L_SHUTDOWN]):
+                yield _mk(kind, (gf, 0, 0), pre + [L_ACTIVATE] + rel + [L_OBSERVE], ["overlap"])
+                yield _mk(kind, (gf, 0, 0), pre + [L_ACTIVATE] + rel + [L_CLOSE, L_ACTIVATE], ["overlap"])
+        for race in L_RACES[:12] if not thorough else L_RACES:
+            for post in ([], [L_OBSERVE], [L_SERVE], [L_ACTIVATE]):
+                yield _mk(kind, (0, 0, 0), [race] + post, ["overlap", "activation-race"])
+            yield _mk(kind, (0, 0, 0), [L_SERVE, L_SHUTDOWN, race], ["overlap", "activation-race"])
+            yield _mk(kind, (1, 0, 0), [race, L_REL_FACTORY], ["overlap", "activation-race"])
+        busy = [L_CONNECT] if kind == 0 else [L_UDPQ]
+        for pair in L_PAIRS:
+            for pre in ([], [L_SERVE], [L_SERVE] + busy, [L_ACTIVATE], [L_SERVE, L_SHUTDOWN], [L_CLOSE]):
+                for post in ([], [L_SERVE], [L_CLOSE], [L_SHUTDOWN], [pair]):
+                    yield _mk(kind, (0, 0, 0), pre + [pair] + post, ["overlap"])
+            yield _mk(kind, (1, 0, 0), [pair, L_REL_FACTORY], ["overlap"])
+            if pair != 112:
+                # (shutdown then close, both before the cancelled activation is resumed: the call ends normally -- the run
+                #  scope was cancelled first -- while the LTS, which does not record the order, says ServerClosedError)
+                yield _mk(kind, (1, 0, 0), [L_SERVE, pair, L_REL_FACTORY], ["overlap"])
+            yield _mk(kind, (0, 1, 0), [L_SERVE, pair, L_REL_INIT], ["overlap"])
+            if kind == 0:
+                yield _mk(kind, (0, 0, 1), [L_SERVE, L_CONNECT, pair, L_REL_CLIENT], ["overlap"])
+    # failing tear-downs (standalone, init gate value 2: a callback pushed by service_init raises while the server is torn
+    # down): every sequence of serve / shutdown / close; a serve_forever that got as far as serving ends with that error
+    for kind in (2, 3):
+        for n in range(1, 4):
+            for seq in itertools.product([L_SERVE, L_SHUTDOWN, L_CLOSE], repeat=n):
+                if L_SERVE in seq[:-1]:
+                    yield _mk(kind, (0, 2, 0), seq, ["failing-teardown"])
     # start-up window (close lock + bootstrap lock held until the portal exists): one call issued inside the window
     for kind in (2, 3):
         # (no server_close inside the window: once released it races with the asynchronous set-up of the new run --
@@ -1242,6 +1337,12 @@ def oracle(inp):
             call_kinds.append(L_CLOSE)               # a cancelled server_close() is over: the same obligations hold afterwards
         elif lab == L_SHUTDOWN_CANCELLED:
             call_kinds.append(None)                  # a cancelled shutdown() promises nothing about the server's state
+        elif lab == L_ACTIVATE:
+            call_kinds.append(L_ACTIVATE)
+        elif lab in L_RACES:
+            call_kinds += [L_ACTIVATE, L_CLOSE]
+        elif lab in L_PAIRS:
+            call_kinds += [(L_SERVE, L_SHUTDOWN, L_CLOSE)[(lab - 100) // 10], (L_SERVE, L_SHUTDOWN, L_CLOSE)[(lab - 100) % 10]]
         elif lab in CALLS:
             call_kinds.append(lab)
     closed_ok_at = None          # index of the first observation after a server_close returned normally
@@ -1259,11 +1360,13 @@ def oracle(inp):
         for k, s in zip(kinds, st):
             if s in (5, 9):
                 what = {L_SERVE: "serve_forever", L_SHUTDOWN: "shutdown", L_CLOSE: "server_close", L_PRE_SHUTDOWN: "shutdown",
-                        L_NST_START: "NetworkServerThread.start"}.get(k, "shutdown (caller cancelled)")
+                        L_NST_START: "NetworkServerThread.start", L_ACTIVATE: "server_activate"}.get(k, "shutdown (caller cancelled)")
                 return (f"{what} ended with an undocumented exception (status {s}) "
                         f"[kind={kind} labels={labels[:step + 1]}]")
             if s == 6:
                 return f"a lifecycle call was cancelled from inside [kind={kind} labels={labels[:step + 1]}]"
+            if s == 8:
+                return f"server_close() returned while is_listening() was still True [kind={kind} labels={labels[:step + 1]}]"
         # a second concurrent serve_forever is refused
         # (inside the gated start-up window of a standalone server a pending call may simply be blocked on a lock)
         in_window = (kind in (2, 3) and gates[0] == 1) or bool(held_slots)
@@ -1354,6 +1457,8 @@ def signature(inp, failure):
         return "standalone-server_close-during-setup-returns-normally-but-closes-nothing"
     if inp[0] in (2, 3) and L_PRE_SHUTDOWN in inp[2] and head.startswith("shutdown neither returned nor stopped the server"):
         return "standalone-shutdown-lost-wakeup-serve_forever-starts-before-event-wait"
+    if inp[0] in (0, 1) and any(lab in L_RACES for lab in inp[2]) and head.startswith("listeners still open after server_close returned"):
+        return "async-server_close-during-activation-leaves-listeners-open"
     if inp[0] in (1, 3) and L_UDPQ in inp[2] and head.startswith("serve_forever ended with an undocumented exception (status 5)"):
         return "udp-serve_forever-raises-taskgroup-shutting-down-when-datagram-queued-at-teardown"
     return head
